@@ -664,7 +664,12 @@ func run(c *tcase, env *rt.Env) rt.Result {
 	if len(c.Ids) == 0 {
 		c.Ids = []string{"r1", "r2"}
 	}
+	// scratch in memory when possible: every append and every advance of the durable queue is an fsync, and the model of
+	// this module is a process crash (what was written is on disk), so nothing depends on a real disk
 	base := filepath.Join(env.Scratch, "c")
+	if d, err := os.MkdirTemp("/dev/shm", "verif-replmgr-"); err == nil {
+		base = d
+	}
 	os.RemoveAll(base)
 	defer os.RemoveAll(base)
 	w := &world{c: c, seed: env.Seed, base: base, root: filepath.Join(base, "r0", "replicationq"), cid: map[string]platform.ID{},
